@@ -34,6 +34,8 @@ namespace OP2Utility::Stream
 		file.read(static_cast<char*>(buffer), size);
 		// Check stream flags for errors
 		if (!file) {
+			// Clear the error flags, so the stream remains usable after a failed read
+			file.clear();
 			throw std::runtime_error("Error reading from file");
 		}
 	}
@@ -41,7 +43,12 @@ namespace OP2Utility::Stream
 	std::size_t FileReader::ReadPartial(void* buffer, std::size_t size) noexcept {
 		file.read(static_cast<char*>(buffer), size);
 		// Note: number of unformatted bytes read, up to size, must fit within a size_t
-		return static_cast<std::size_t>(file.gcount());
+		auto bytesTransferred = static_cast<std::size_t>(file.gcount());
+		if (!file) {
+			// A short read sets the error flags. Clear them, so the stream remains usable
+			file.clear();
+		}
+		return bytesTransferred;
 	}
 
 	uint64_t FileReader::Length() {
